@@ -1203,8 +1203,9 @@ class CompilerPassGatherCode(CompilerPass):
 
         for line_num, line in enumerate(new_code):
             for label, target_line in label_map.items():
-                pattern = r"(?<![\w.]){}(?![\w.])".format(re.escape(label))
-                if re.search(pattern, line):
+                # quoted text (device names, HASH("...") arguments) is matched first and left as it is
+                pattern = r'"[^"]*"|(?<![\w.]){}(?![\w.])'.format(re.escape(label))
+                if any(m.group(0)[0] != '"' for m in re.finditer(pattern, line)):
                     if relative_numbers:
                         offset = target_line - line_num
                         replacement = str(offset)
@@ -1216,7 +1217,11 @@ class CompilerPassGatherCode(CompilerPass):
                     else:
                         replacement = str(target_line)
 
-                    line = re.sub(pattern, replacement, line)
+                    line = re.sub(
+                        pattern,
+                        lambda m: m.group(0) if m.group(0)[0] == '"' else replacement,
+                        line,
+                    )
             new_code[line_num] = line
 
         new_code = "\n".join(new_code)
